@@ -77,6 +77,29 @@ type upInfo struct {
 	Hex      string // content as read (two interleaved halves)
 	IsFile   bool
 	Indep    bool // re-read after Seek(0) gives the same bytes and did not disturb the others
+	NoEOF    bool // the reader kept answering 0, nil: io.ReadAll would never return
+}
+
+// readAll is io.ReadAll for a reader that may be broken: a reader that answers (0, nil) 64 times in a row is
+// given up (stuck = true) instead of hanging the request for ever.
+func readAll(r io.Reader) (data []byte, stuck bool) {
+	buf := make([]byte, 4096)
+	idle := 0
+	for {
+		n, err := r.Read(buf)
+		data = append(data, buf[:n]...)
+		if err != nil {
+			return data, false
+		}
+		if n == 0 {
+			idle++
+			if idle >= 64 {
+				return data, true
+			}
+		} else {
+			idle = 0
+		}
+	}
 }
 
 type seen struct {
@@ -161,8 +184,10 @@ func (e *env) readUploads(vars map[string]any) {
 		n, _ := io.ReadFull(u.File, half)
 		bufs[i] = half[:n]
 	}
+	noEOF := make([]bool, len(ups))
 	for i, u := range ups {
-		rest, _ := io.ReadAll(u.File)
+		rest, stuck := readAll(u.File)
+		noEOF[i] = stuck
 		bufs[i] = append(bufs[i], rest...)
 	}
 	for i, u := range ups {
@@ -171,7 +196,8 @@ func (e *env) readUploads(vars map[string]any) {
 		if _, err := u.File.Seek(0, io.SeekStart); err != nil {
 			indep = false
 		} else {
-			again, _ := io.ReadAll(u.File)
+			again, stuck := readAll(u.File)
+			noEOF[i] = noEOF[i] || stuck
 			indep = string(again) == string(bufs[i])
 			// every other reader must still be at EOF
 			for j, o := range ups {
@@ -183,7 +209,7 @@ func (e *env) readUploads(vars map[string]any) {
 				}
 			}
 		}
-		s.ups = append(s.ups, upInfo{Name: u.Filename, CT: u.ContentType, Size: u.Size, Hex: digest(bufs[i]), IsFile: isFile, Indep: indep})
+		s.ups = append(s.ups, upInfo{Name: u.Filename, CT: u.ContentType, Size: u.Size, Hex: digest(bufs[i]), IsFile: isFile, Indep: indep, NoEOF: noEOF[i]})
 	}
 	s.tree = treeOutP(t, idx)
 	e.seen = s
